@@ -209,8 +209,9 @@ def main() -> int:
     if au["obligations"] == 0:
         # no theorem registered for this property yet: claim only what was measured
         ev["coverage"].pop("obligations"); ev["coverage"].pop("discharged")
-    EVIDENCE.mkdir(exist_ok=True)
-    (EVIDENCE / f"{prop}.json").write_text(json.dumps(ev, indent=1, default=str))
+    if EVIDENCE is not None:
+        EVIDENCE.mkdir(exist_ok=True)
+        (EVIDENCE / f"{prop}.json").write_text(json.dumps(ev, indent=1, default=str))
     for l in lines:
         print(l)
     print(f"{prop} tier={a.tier} seed={seed} evaluations={out.evaluations} nontrivial={len(out.nontrivial)} "
